@@ -13,8 +13,9 @@ func init() { register("C11", "other", checkC11) }
 
 func checkC11(w *World, r *Result) {
 	r.Explanation = "Decides structural necessary conditions: AGR-C11c candidates are the defined (non-alias) named types of the package scope in scope.Names() order; AGR-C11f a candidate is a member exactly when it is not an interface and types.Implements(member, itf) holds, with itf the candidate union's own underlying interface, members kept in candidate order, and only empty member lists are dropped; AGR-C11u the Union node takes its members, in order, once each, from the table entry of its own name; AGR-C11a whenever createType replaces its key (alias resolution) it consults the memo under the new key before building a node, so one Go type has one node and the Implements pass (which ranges over the memo) reaches every node that parents reference; AGR-C11i Implements is computed for every struct of the memo after all types are analysed, by identity of *types.Named against the same union table, and sorted (ORD-1). Does not decide: exactness against method sets (go/types' Implements), nor 'each once' across packages with homonym types beyond identity comparison."
-	r.Rules = []string{"AGR-C11c candidates", "AGR-C11f member filter", "AGR-C11u union node", "AGR-C11a memo key", "AGR-C11i implements", "ORD-1 (merge of the per-package tables)", "PKG-ID", "ALIAS-APPEND"}
+	r.Rules = []string{"AGR-C11c candidates", "AGR-C11f member filter", "AGR-C11u union node", "AGR-C11a memo key", "AGR-C11i implements", "ORD-1 (merge of the per-package tables)", "PKG-ID", "ALIAS-APPEND", "WORKLIST-RANGE"}
 	aliasAppendRule(w, r, func(rel string) bool { return rel == "analysis" })
+	worklistRangeRule(w, r, func(rel string) bool { return rel == "analysis" })
 	checkCandidates(w, r)
 	checkMemberFilter(w, r)
 	checkUnionNode(w, r)
@@ -313,6 +314,25 @@ func checkUnionNode(w *World, r *Result) {
 		})
 	}
 	if app == nil {
+		// the members may be filled after the node is registered (a deferred pass): look in the whole package
+		for _, cf := range sortedFuncs(w) {
+			if cf.Decl.Body == nil || cf.Pkg != fi.Pkg {
+				continue
+			}
+			ast.Inspect(cf.Decl.Body, func(x ast.Node) bool {
+				as, ok := x.(*ast.AssignStmt)
+				if ok && len(as.Lhs) == 1 && len(as.Rhs) == 1 {
+					if sel, ok := as.Lhs[0].(*ast.SelectorExpr); ok && info.Uses[sel.Sel] == membersField {
+						if c, ok := as.Rhs[0].(*ast.CallExpr); ok && isBuiltinCall(info, c, "append") {
+							app, afi = as, cf
+						}
+					}
+				}
+				return true
+			})
+		}
+	}
+	if app == nil {
 		Undecided("createType: no append to Union.Members")
 	}
 	pos := w.Pos(app.Pos())
@@ -339,8 +359,11 @@ func checkUnionNode(w *World, r *Result) {
 		}
 		// rs.X defined from a lookup in the unions table keyed by the named type under construction (through the
 		// helper's parameter when the loop was extracted)
+		if ix, ok := ast.Unparen(rs.X).(*ast.IndexExpr); ok && strings.HasSuffix(es(ix.X), ".unions") {
+			good = true
+		}
 		if id := identOf(rs.X); id != nil {
-			ds, _ := defsThrough(w, fi, afi, objOf(info, id))
+			ds, _ := defsThroughAny(w, afi, objOf(info, id))
 			for _, d := range ds {
 				if ix, ok := ast.Unparen(d).(*ast.IndexExpr); ok && strings.HasSuffix(es(ix.X), ".unions") {
 					good = true
@@ -469,11 +492,60 @@ func checkImplements(w *World, r *Result) {
 			loops = append(loops, rs)
 		}
 	}
-	order := len(loops) == 2 && strings.HasSuffix(es(loops[0].X), ".Source") && strings.HasSuffix(es(loops[1].X), ".Types")
+	// the pass is the loop over the memo that calls setImplements; the loop over Source comes before it and nothing
+	// after it analyses a type (a deferred pass that fills nodes between the two is the analysis still)
+	var implLoop *ast.RangeStmt
+	srcBefore, analysisAfter := false, false
+	hType := w.MustFunc("analysis.(*Analysis).handleType")
+	reachesAnalysis := func(n ast.Node) bool {
+		found := false
+		ast.Inspect(n, func(x ast.Node) bool {
+			if call, ok := x.(*ast.CallExpr); ok {
+				if fn := calleeOf(pinfo, call); fn != nil {
+					if fn == hType.Obj {
+						found = true
+					} else if cf := w.Funcs[fn]; cf != nil && cf.Decl.Body != nil {
+						for _, c2 := range calleeClosure(w, cf, 3) {
+							if c2 == hType {
+								found = true
+							}
+						}
+					}
+				}
+			}
+			return true
+		})
+		return found
+	}
+	for _, st := range pf.Decl.Body.List {
+		rs, isLoop := st.(*ast.RangeStmt)
+		if implLoop != nil {
+			if reachesAnalysis(st) {
+				analysisAfter = true
+			}
+			continue
+		}
+		if isLoop && strings.HasSuffix(es(rs.X), ".Source") {
+			srcBefore = true
+		}
+		if isLoop && strings.HasSuffix(es(rs.X), ".Types") {
+			has := false
+			ast.Inspect(rs.Body, func(x ast.Node) bool {
+				if call, ok := x.(*ast.CallExpr); ok && strings.HasSuffix(fullName(calleeOf(pinfo, call)), ".setImplements") {
+					has = true
+				}
+				return true
+			})
+			if has {
+				implLoop = rs
+			}
+		}
+	}
+	order := implLoop != nil && srcBefore && !analysisAfter
 	callOK := false
 	if order {
 		conds := 0
-		ast.Inspect(loops[1].Body, func(x ast.Node) bool {
+		ast.Inspect(implLoop.Body, func(x ast.Node) bool {
 			if call, ok := x.(*ast.CallExpr); ok && strings.HasSuffix(fullName(calleeOf(pinfo, call)), ".setImplements") {
 				for _, c := range pathConds(pf.Decl, call) {
 					if c.expr != nil && !c.loop {
